@@ -61,12 +61,7 @@ def reachable_leaves(tree, env: Dict[str, float]) -> List[Leaf]:
 
 
 def _row(ev, st, prog, name: str):
-    td = prog.cls(C.M_TD, 'TrajectoryData')
-    f = {k: NONE for k in prog.namedtuple_fields(td)}
-    f['target_drop'] = C.mk_quantity(ev, st, prog, 'Distance', name, 'Foot')
-    f['distance'] = C.mk_quantity(ev, st, prog, 'Distance', name + '_x', 'Foot')
-    f['height'] = C.mk_quantity(ev, st, prog, 'Distance', name + '_y', 'Foot')
-    return ev.new_inst(st, td, f)
+    return C.mk_row(ev, st, prog, name + '_', {'target_drop': C.mk_quantity(ev, st, prog, 'Distance', name, 'Foot')})
 
 
 def run(prog: Program, rep, thorough: bool) -> None:
